@@ -8,7 +8,7 @@ package dnsmessage
 //   VerifC37_longname  names of 252..256 decoded bytes (plain, through a pointer, self-referencing 63-byte label)
 //   VerifC37_chain     pointer chains of exactly 9..12 hops
 //   VerifC37_header    arbitrary 12-byte header (all flag bits), empty sections
-//   VerifC37_bytes     short header (11 bytes) or header + 0..7 (thorough 9) arbitrary body bytes, any section counts <= 2/1/1/1
+//   VerifC37_bytes     short header (11 bytes) or header + 0..7 (thorough 10) arbitrary body bytes, any section counts <= 2/1/1/1
 //   VerifC37_rec_*     one record of each of the 13 body kinds with arbitrary class/TTL/RDATA, RDLENGTH = R-1..R+1,
 //                      in 3 layouts (truncated; compressed owner name + misaligned follower record; after a question)
 // Every message goes through c37message: no panic; Unpack == record-by-record Parser (Xxx, XxxHeader + typed body
@@ -573,7 +573,7 @@ func c37assumePointers(msg []byte, from int, targets ...byte) {
 func VerifC37_bytes() {
 	bmax := 7
 	if vfTier() > 0 {
-		bmax = 9
+		bmax = 10
 	}
 	n := vfLen("n", 11, 12+bmax)
 	msg := vfBytes("msg", n)
@@ -733,6 +733,12 @@ func c37record(kind int) {
 		// option length (16 bits) sizes an allocation before any bounds check: keep it small (assumed bound)
 		vfAssume(msg[rdOff+2] == 0)
 		vfAssume(msg[rdOff+3] <= 3)
+		if R >= 8 {
+			// room for a second option: the first one is empty and the second length is small too
+			vfAssume(msg[rdOff+3] == 0)
+			vfAssume(msg[rdOff+6] == 0)
+			vfAssume(msg[rdOff+7] <= 3)
+		}
 	}
 	if layout == 1 {
 		// concrete follower: with RDLENGTH off by one it is parsed misaligned, which must stay cheap
